@@ -4,6 +4,8 @@
 From V.lib Require Import Bits.
 From V.model Require Import Timer.
 From V.spec Require Import TimerSpec.
+From V.proofs Require ConstsTie.
+From V.gen Require GenConsts.
 From V.proofs Require Import TimerProofs.
 
 (* For EVERY schedule over {Tick (end of a machine cycle), write DIV/TIMA/TMA/TAC of a byte} and EVERY initial
@@ -111,3 +113,9 @@ Example C12_example_overflow :
   exists t0 t1, timer_tick t0 = (t1, true) /\
     t0 = timer_run (timer_at 256) (map op_of [WTac 5; WTima 255; WTma 119; Tick; Tick; Tick]).
 Proof. eexists. eexists. split; [|reflexivity]. vm_compute. reflexivity. Qed.
+
+(* the divider taps of the model are the table regenerated from timer.go on this run *)
+Theorem C12_taps_regenerated :
+  List.map V.model.Timer.counter_bit_mask (0 :: 1 :: 2 :: 3 :: nil)%N = V.gen.GenConsts.counterBitMasks.
+Proof. exact V.proofs.ConstsTie.counter_masks_tie. Qed.
+Print Assumptions C12_taps_regenerated.
